@@ -441,32 +441,21 @@ func ruleR12e(c *Check) {
 			}
 			return false
 		}
-		ok := true
-		for _, r := range engine.Returns(fn) {
-			for _, lf := range engine.PhiLeaves(r.Results[0]) {
-				if k, isK := engine.BoolConst(lf.Val); isK && !k {
-					continue
-				}
-				// a leaf that is this predicate's own result (with the accepting polarity) is fine
-				if !engine.IsBoolConst(lf.Val) && accepting(engine.CondAtom(lf.Val, true)) {
-					continue
-				}
-				// otherwise the edge must be reachable only through an accepting branch of this filter
-				var at ssa.Instruction
-				if lf.Pred != nil {
-					at = lf.Pred.Instrs[len(lf.Pred.Instrs)-1]
-				} else {
-					at = r
-				}
-				// leaves on the non-target path (node is not a *Target) are exempt
-				if onNonTargetPath(fn, at) {
-					continue
-				}
-				if reach, _ := engine.PathExists(fn, nil, engine.IsInstr(at), engine.PathQuery{CutEdge: engine.CutEdgesWhere(accepting)}); reach {
-					ok = false
-				}
+		// a true answer for a target needs an accepting edge of this filter on its path; the answer for a node
+		// that is not a target is R12k's business (the not-a-target edge of the type test is a cut here).
+		// MayReturnBool follows the conjunction into a helper the filter was split into.
+		notTarget := func(a engine.Atom) bool {
+			if a.Op != "false" {
+				return false
 			}
+			ex, isEx := a.V.(*ssa.Extract)
+			if !isEx || ex.Index != 1 {
+				return false
+			}
+			ta, isTA := ex.Tuple.(*ssa.TypeAssert)
+			return isTA && engine.TypeKey(ta.AssertedType) == "model.Target"
 		}
+		ok := !engine.MayReturnBool(fn, 0, true, engine.PathQuery{CutEdge: engine.CutEdgesWhere(func(a engine.Atom) bool { return accepting(a) || notTarget(a) })})
 		c.Require(ok, "R12e", key, "a true result for a target requires the "+f+" predicate == "+op+" (or an empty "+f+" filter)", "the filter can return true for a target although the "+f+" predicate did not hold (conjunction weakened): targets outside the requested set would be built", c.P.Pos(fn.Pos()))
 	}
 	// R12k: node kinds other than targets. An alias stands for a target; selecting it selects that target
